@@ -179,10 +179,40 @@ TTick ==
      /\ lastIn' = (IF ev.ms # full.ms THEN << nows, lastIn[2] >> ELSE lastIn)
      /\ l' = l + 1 /\ UNCHANGED << mT, sT, lastFrame, lastNi >>
 
+(* ------------------------------------------------------------ the documented frame-processing flow   *)
+(* (Documentation/automata_runtime.md, os/darwin/daemon/darwin-main.c; beyond the listed properties,   *)
+(* Check id "XGLUE"): what a frame does to the session table and to RepeatBand before the tick runs.    *)
+(* The session event the flow derived is read back from the entry it stamped (6th logged field).       *)
+KeyOf(rs) == IF rs[1] = 2 /\ rs[2] = 75 /\ rs[3] = 0 /\ rs[4] = 0 THEN rs[5] * 256 + rs[6] ELSE 0 - 1
+GlueTable(t, ev, nows) ==
+  LET k == KeyOf(ev.rs)
+      stamped == {ev.live[i][6] : i \in {j \in 1..Len(ev.live) : ev.live[j][1] = k /\ ev.live[j][2] = ev.gen}}
+      acking == stamped \cap {SessAcking, SessAckingChg} # {}
+      t1 == CASE ev.op = OpDiscover -> (IF acking THEN TComplete(TAdd(t, k, ev.gen, nows, TableCap), k, ev.gen) ELSE TAdd(t, k, ev.gen, nows, TableCap))
+              [] ev.op = OpReset -> {}
+              [] OTHER -> t
+      t2 == IF full.ms # 0 /\ ev.ms = 0 THEN {} ELSE t1        \* the mapping session ended: table cleared
+  IN TExpire(t2, nows)                                         \* the tick that closes the flow sweeps stale sessions
+
+GlueRefines(ev) ==
+  LET nows == ev.now \div 1000
+      nows0 == ev.now0 \div 1000            \* the table is updated before the reply pause of parseFrame
+      want == TExpire(GlueTable(full.live, ev, nows0), nows)
+      \* RepeatBand before the closing tick: a Discover (re)starts / continues enumeration
+      pre0 == IF ev.op = OpDiscover
+              THEN (IF full.es = 0 THEN [full EXCEPT !.es = 1, !.hto = ev.now0 + 120, !.bto = ev.now0 + 300] ELSE [full EXCEPT !.es = 1])
+              ELSE full
+      pre == AbsOf(pre0, LiveSet(ev), ev.now)
+      post == AbsOf(FullOf(ev), LiveSet(ev), ev.now)
+  IN /\ KeyOf(ev.rs) >= 0 => LiveSet(ev) = want
+     /\ Len(ev.hellos) <= 1
+     /\ \E r \in TP!TickStep(pre) : r.post = post /\ r.sent = (Len(ev.hellos) = 1)
+
 (* a frame through the Darwin frame path (classifier, table update, automata, parseFrame, tick) *)
 TGlue ==
   LET ev == Log[l] IN
   /\ ev.e = "glue"
+  /\ Chk("XGLUE") => GlueRefines(ev)
   \* the frame path feeds the opcode to the mapping engine; leaving an active state empties the table
   /\ Chk("C14") => /\ ev.ms \in MappingStep(full.ms, ev.op, ev.now \div 1000 - lastIn[1], mT)
                    /\ (full.ms # 0 /\ ev.ms = 0) => ev.live = << >>
